@@ -77,7 +77,8 @@ def child_shapes(cname: str, nm: Namer, tier: str, rich: bool) -> list:
     if cname in spec.NARY:
         out = [(cname, [nm.var(), nm.var()])]
         if rich:
-            out += [(cname, []), (cname, [nm.var()])]
+            out += [(cname, []), (cname, [nm.var()]), (cname, [("Constant", -2), nm.var()]),
+                    (cname, [nm.var(), ("Constant", 2)]), (cname, [("Constant", 0), nm.var()])]
         return out
     return []
 
@@ -95,9 +96,13 @@ def rule_inputs(model: Model, tier: str):
         ment = mentioned_classes(model, k)
         kinds = ["Variable"] + ment
         nm = Namer()
+        deep = any(fi.qualname.split(".")[0] == k for (fi, _ln, _p) in deep_pattern_sites(model))
         if k in spec.UNARY or k in spec.PARAM:
             for ck in kinds:
-                for ch in child_shapes(ck, nm, tier, True):
+                shapes = child_shapes(ck, nm, tier, True)
+                if deep and ck not in spec.LEAF:
+                    shapes = shapes + deep_child_shapes(model, ck, kinds, nm, tier)
+                for ch in shapes:
                     if k in spec.UNARY:
                         out.append(((k, ch), f"{k}<{ck}>"))
                     elif k in ("NthPower", "NthRoot"):
@@ -127,6 +132,67 @@ def rule_inputs(model: Model, tier: str):
                         pools = [p[:3] for p in pools]
                     for kids in itertools.product(*pools):
                         out.append(((k, list(kids)), f"{k}<{','.join(combo)}>"))
+            # arities 4 and 5: a deterministic sample of child-class combinations
+            import random
+            rng = random.Random(20260927)
+            for ar in (4, 5):
+                combos = list(itertools.product(kinds, repeat=ar))
+                rng.shuffle(combos)
+                for combo in combos[:60 if tier == "quick" else 400]:
+                    kids = []
+                    for ck in combo:
+                        pool = child_shapes(ck, nm, tier, False)
+                        kids.append(pool[rng.randrange(len(pool))])
+                    out.append(((k, kids), f"{k}<arity {ar}>"))
+    return out
+
+
+def unary_chains(model: Model, tier: str):
+    """Depth-3 chains of unary / parameterised-unary classes over one variable: combinations of a
+    node with child and grandchild that enable several rules in sequence."""
+    names = [c.name for c in model.concrete_expression_classes()]
+    x = ("Variable", "x")
+    kinds = []
+    for k in ("NthPower", "NthRoot", "Negation", "Reciprocal", "Exponential", "Logarithm"):
+        if k in names:
+            kinds.append(k)
+    pars = {"NthPower": (2, 3), "NthRoot": (2, 3), "Exponential": (2,), "Logarithm": (2,)}
+    if tier != "quick":
+        pars = {"NthPower": (2, 3, 4, 6), "NthRoot": (2, 3, 4, 6), "Exponential": (2, E), "Logarithm": (2, E)}
+
+    def wrap(k, inner):
+        if k in pars:
+            return [(k, inner, p) for p in pars[k]]
+        return [(k, inner)]
+    out = []
+    for k1 in kinds:
+        for a in wrap(k1, x):
+            for k2 in kinds:
+                for b in wrap(k2, a):
+                    for k3 in kinds:
+                        for c in wrap(k3, b):
+                            out.append((c, f"chain3:{k3}<{k2}<{k1}>>"))
+    return out
+
+
+def deep_child_shapes(model: Model, cname: str, kinds: list, nm: "Namer", tier: str) -> list:
+    """Children of class `cname` whose own children are drawn from `kinds` (used when a reducer
+    inspects grandchildren)."""
+    out = []
+    subs = []
+    for gk in kinds:
+        subs += child_shapes(gk, nm, tier, gk == "Constant")[:4]
+    if cname in spec.UNARY:
+        out = [(cname, g) for g in subs]
+    elif cname in ("NthPower", "NthRoot"):
+        out = [(cname, g, n) for g in subs for n in (2, 3)]
+    elif cname in ("Exponential", "Logarithm"):
+        out = [(cname, g, 2) for g in subs]
+    elif cname in spec.BINARY:
+        out = [(cname, g, nm.var()) for g in subs] + [(cname, nm.var(), g) for g in subs]
+    elif cname in spec.NARY:
+        out = [(cname, [g, nm.var()]) for g in subs] + [(cname, [nm.var(), g]) for g in subs] + \
+              [(cname, [g]) for g in subs]
     return out
 
 
@@ -161,27 +227,38 @@ def reduce_trace(args):
         seq = [("input", obj_to_tree(it, e), it.to_repr(e), obj_ids(it, e))]
         cur = e
         steps = 0
+        blind = False       # the form grew too deep to be read back: keep driving, only count steps
         while True:
             flag = it.getattr(cur, "_is_fully_reduced")
             if it.truth(flag):
                 break
             if steps >= max_steps:
-                seq.append(("<step budget of the analysis exhausted>", None, None, None))
+                seq.append(("<step budget exhausted>", None, None, None))
                 return seq, None
             mark = len(it.call_log)
-            before_ids = obj_ids(it, cur)
+            before_ids = None if blind else obj_ids(it, cur)
             nxt = it.call(it.getattr(cur, "_take_reduction_step"), [], {})
+            steps += 1
+            cur = nxt
+            if blind:
+                del it.call_log[:]
+                continue
             who = "driver"
             for (q, _recv) in it.call_log[mark:]:
                 nmq = q.split(".")[-1]
                 if nmq.startswith("_reduce") or nmq == "_consolidate_expression_lacking_variables":
                     who = q
-            # the reducer that fired is the last one called before the step returned a new node
-            t = obj_to_tree(it, nxt)
+            try:
+                t = obj_to_tree(it, nxt)
+            except Unsupported as u:
+                if "too deep" in str(u):
+                    seq.append((f"<grew beyond nesting depth 60 after {steps} driver steps; last rule {who}>", None, None, None))
+                    return seq, None
+                raise
             if t != seq[-1][1]:
                 seq.append((who, t, it.to_repr(nxt), obj_ids(it, nxt), before_ids))
-            steps += 1
-            cur = nxt
+        if blind:
+            return seq, None
         final = it.call(it.getattr(cur, "_normalize_fully_reduced"), [], {})
         seq.append(("normal-form pass", obj_to_tree(it, final), it.to_repr(final), obj_ids(it, final)))
         # end-to-end through the public pipeline on a fresh copy
@@ -354,6 +431,13 @@ def deep_pattern_sites(model: Model):
                         ch = attr_chain(node.value)
                         if ch and ch[0] == sn:
                             aliases[node.targets[0].id] = ch
+                for node in ast.walk(fi.node):
+                    if isinstance(node, (ast.For, ast.comprehension)) and isinstance(node.target, ast.Name):
+                        ch = attr_chain(node.iter)
+                        if ch and ch[0] in aliases:
+                            ch = aliases[ch[0]] + ch[1:]
+                        if ch and ch[0] == sn and len(ch) >= 2:
+                            aliases[node.target.id] = ch[:-1] + [ch[-1] + "[]"]
                 for node in ast.walk(fi.node):
                     if isinstance(node, ast.Call) and isinstance(node.func, ast.Name) and node.func.id in ("isinstance", "type") \
                             and node.args:
